@@ -64,6 +64,11 @@ A_QUAD = ['', 'a', 'A', '1', 'a1', '1a', 'ab', 'a1b', '-', '.', 'a-b',
 A_OPT = _uniq(A_TRIPLE + ['Z', ']', '\\', ' ', 'x_y', ' a ', 'a-', '-a',
                           'A-1', 'a  b'])
 
+# thorough options layer for pairs
+A_OPT_T = _uniq(A_OPT + A_TRIPLE_T + STRUCTURED + [
+    ''.join(t) for t in itertools.product(['a', '0', '-', ' ', '_'],
+                                          repeat=2)])
+
 # quick-tier reductions
 A_TRIPLE_Q = [x for x in A_TRIPLE if x not in ('1a', 'c-d', 'a ', '12')]
 A_OPT_Q = A_OPT[:34]
